@@ -350,3 +350,28 @@ func (s *Sorts) oldHeapAxiom(comp, oldName string) string {
 	}
 	return fmt.Sprintf("(assert (forall (%s) (! (=> (<= r!o epoch) (and %s)) :pattern (%s))))\n", binders, strings.Join(cs, " "), pat)
 }
+
+// entryHeapAxiom: at function entry no stored reference points beyond the allocation counter.
+func (s *Sorts) entryHeapAxiom(comp, verName, allocName string) string {
+	m, ok := s.compMeta[comp]
+	if !ok || m.Dom {
+		return ""
+	}
+	var val, binders string
+	if m.Nest == "" {
+		val = fmt.Sprintf("(select %s r!e)", verName)
+		binders = "(r!e Int)"
+	} else {
+		val = fmt.Sprintf("(select (select %s r!e) k!e)", verName)
+		binders = fmt.Sprintf("(r!e Int) (k!e %s)", m.Nest)
+	}
+	refs := s.refExprs(m.T, val, 0)
+	if len(refs) == 0 {
+		return ""
+	}
+	var cs []string
+	for _, r := range refs {
+		cs = append(cs, fmt.Sprintf("(<= %s %s)", r, allocName))
+	}
+	return fmt.Sprintf("(assert (forall (%s) (! (and %s) :pattern (%s))))\n", binders, strings.Join(cs, " "), val)
+}
